@@ -21,15 +21,6 @@ func runTry(args []string) {
 		fmt.Fprintln(os.Stderr, err)
 		os.Exit(3)
 	}
-	o := xgolib.Compile(map[string]string{"main.xgo": string(src)}, xgolib.Options{NoFileLine: true})
-	if o.Err != nil || o.Panic != nil {
-		fmt.Printf("COMPILE %s: err=%v panic=%v\n", o.Stage, o.Err, o.Panic)
-		return
-	}
-	if len(args) < 2 {
-		fmt.Println("---- generated Go")
-		fmt.Print(o.Go)
-	}
 	dir, err := os.MkdirTemp(scratchRoot(), "try-")
 	if err != nil {
 		fmt.Fprintln(os.Stderr, err)
@@ -40,6 +31,16 @@ func runTry(args []string) {
 	if err != nil {
 		fmt.Fprintln(os.Stderr, err)
 		os.Exit(3)
+	}
+	os.Chdir(r.Dir) // imports are resolved by `go list` relative to the working directory
+	o := xgolib.Compile(map[string]string{"main.xgo": string(src)}, xgolib.Options{NoFileLine: true})
+	if o.Err != nil || o.Panic != nil {
+		fmt.Printf("COMPILE %s: err=%v panic=%v\n", o.Stage, o.Err, o.Panic)
+		return
+	}
+	if len(args) < 2 {
+		fmt.Println("---- generated Go")
+		fmt.Print(o.Go)
 	}
 	res := r.Run("try", map[string]string{"main.go": o.Go}, 20*time.Second)
 	fmt.Println("---- run")
